@@ -19,7 +19,7 @@ int __wrap_getnameinfo(const struct sockaddr *sa, socklen_t salen, char *host, s
     if (host) snprintf(host, hostlen, "127.0.0.1"); if (serv) snprintf(serv, servlen, "1"); return 0;
 }
 #define MAXC 16
-static Client *C[MAXC]; static int far[MAXC]; static int nc;
+static Client *C[MAXC]; static int far[MAXC]; static int cid[MAXC]; static int nc;
 static unsigned char bytes[1 << 21];
 static void hexn(const void *s, int n) { if (n == 0) printf("-"); for (int i = 0; i < n; i++) printf("%02x", ((const unsigned char *)s)[i]); }
 static void hexs(const char *s) { if (!s) { printf("~"); return; } hexn(s, strlen(s)); }
@@ -77,9 +77,14 @@ int main(int argc, char **argv)
             int sz = 1 << 22; setsockopt(sv[0], SOL_SOCKET, SO_SNDBUF, &sz, sizeof sz); setsockopt(sv[1], SOL_SOCKET, SO_SNDBUF, &sz, sizeof sz);
             next_accept = sv[0]; _create_client_socket(-1);
             { ListIterator it = list_iterator_create(cli_clients); Client *c, *last = NULL; while ((c = list_next(it))) last = c; list_iterator_destroy(it); C[nc] = last; }
-            far[nc] = sv[1]; nc++;
+            far[nc] = sv[1]; cid[nc] = C[nc]->client_id; nc++;
+        }
+        else if (sscanf(line, "DROP %d", &k) == 1) {
+            /* the client record is destroyed (what cli_post_poll does on EOF / error / quit): actions it queued stay */
+            if (C[k]) { ListIterator it = list_iterator_create(cli_clients); Client *c; while ((c = list_next(it))) if (c == C[k]) { list_delete(it); break; } list_iterator_destroy(it); C[k] = NULL; }
         }
         else if (sscanf(line, "BYTES %d %s", &k, a) == 2) {
+            if (!C[k]) { printf("GONE\nEND\n"); fflush(stdout); continue; }
             n = unhex(a, bytes);
             if (write(far[k], bytes, n) != n) printf("HARNESS short write\n");
             /* as the poll loop would: read while the descriptor is readable, then extract the lines */
@@ -87,23 +92,28 @@ int main(int argc, char **argv)
             dump_queues();
         }
         else if (sscanf(line, "DONE1 %d %d %s", &k, &err, a) == 3) {
-            if (!C[k]->cmd) printf("SKIP\n");
-            else { n = unhex(a, bytes); bytes[n] = 0; if (err == 0) _act_finish(C[k]->client_id, err, NULL); else _act_finish(C[k]->client_id, err, "%s", (char *)bytes); }
+            n = unhex(a, bytes); bytes[n] = 0;
+            if (!C[k]) { /* completion of an action whose client is gone: looked up by id, must do nothing */
+                         if (err == 0) _act_finish(cid[k], err, NULL); else _act_finish(cid[k], err, "%s", (char *)bytes); printf("ORPHAN\n"); }
+            else if (!C[k]->cmd) printf("SKIP\n");
+            else { if (err == 0) _act_finish(C[k]->client_id, err, NULL); else _act_finish(C[k]->client_id, err, "%s", (char *)bytes); }
         }
         else if (sscanf(line, "DONEALL %d %s %s", &k, b, a) == 3) {
-            if (!C[k]->cmd) printf("SKIP\n");
+            if (!C[k]) printf("GONE\n");
+            else if (!C[k]->cmd) printf("SKIP\n");
             else { n = unhex(a, bytes); bytes[n] = 0; int i = 0, L = strlen(b);
                    while (C[k]->cmd) { err = b[i % L] - '0'; i++; if (err == 0) _act_finish(C[k]->client_id, err, NULL); else _act_finish(C[k]->client_id, err, "%s", (char *)bytes); } }
         }
         else if (sscanf(line, "ARG %d %s %d %d %s", &k, a, &st, &res, b) == 5) {
-            if (!C[k]->cmd) printf("SKIP\n");
+            if (!C[k]) printf("GONE\n");
+            else if (!C[k]->cmd) printf("SKIP\n");
             else { n = unhex(a, bytes); bytes[n] = 0; Arg *arg = arglist_find(C[k]->cmd->arglist, (char *)bytes);
                    if (!arg) printf("NOARG\n");
                    else { arg->state = st; arg->result = res; if (arg->val) xfree(arg->val); arg->val = NULL;
                           if (strcmp(b, "~")) { n = unhex(b, bytes); bytes[n] = 0; arg->val = xstrdup((char *)bytes); } } }
         }
-        else if (sscanf(line, "TELE %d %s", &k, a) == 2) { if (!C[k]->cmd) printf("SKIP\n"); else { n = unhex(a, bytes); bytes[n] = 0; _telemetry_printf(C[k]->client_id, "%s", (char *)bytes); } }
-        else if (sscanf(line, "DIAG %d %s", &k, a) == 2) { if (!C[k]->cmd) printf("SKIP\n"); else { n = unhex(a, bytes); bytes[n] = 0; _diag_printf(C[k]->client_id, "%s", (char *)bytes); } }
+        else if (sscanf(line, "TELE %d %s", &k, a) == 2) { if (!C[k]) { n = unhex(a, bytes); bytes[n] = 0; _telemetry_printf(cid[k], "%s", (char *)bytes); printf("ORPHAN\n"); } else if (!C[k]->cmd) printf("SKIP\n"); else { n = unhex(a, bytes); bytes[n] = 0; _telemetry_printf(C[k]->client_id, "%s", (char *)bytes); } }
+        else if (sscanf(line, "DIAG %d %s", &k, a) == 2) { if (!C[k]) { n = unhex(a, bytes); bytes[n] = 0; _diag_printf(cid[k], "%s", (char *)bytes); printf("ORPHAN\n"); } else if (!C[k]->cmd) printf("SKIP\n"); else { n = unhex(a, bytes); bytes[n] = 0; _diag_printf(C[k]->client_id, "%s", (char *)bytes); } }
         else continue;
         outputs();
         printf("END\n");
